@@ -105,13 +105,14 @@ var (
 
 // RouteOpt configures the routing-tree generator.
 type RouteOpt struct {
-	MaxDepth   int
-	MaxFanout  int
-	Receivers  []string
-	Legacy     bool     // allow match / match_re
-	Timers     bool     // generate timer overrides
-	Intervals  []string // names of time intervals that may be referenced
-	RootTimers bool
+	MaxDepth      int
+	MaxFanout     int
+	Receivers     []string
+	Legacy        bool     // allow match / match_re
+	MixedMatchers bool     // allow nodes mixing match, match_re and up to 4 new-style matchers
+	Timers        bool     // generate timer overrides
+	Intervals     []string // names of time intervals that may be referenced
+	RootTimers    bool
 	// UniqueSiblings avoids sibling routes with identical matcher sets: their route keys (and
 	// hence group keys and notification-log entries) coincide by design, which is outside every property.
 	UniqueSiblings bool
@@ -193,11 +194,20 @@ func children(r *rand.Rand, o RouteOpt, depth int) []*model.RouteSpec {
 				n2 := Pick(r, LabelNames)
 				c.MatchRE = map[string]string{n2: Pick(r, Regexes[n2])}
 			}
+			if o.MixedMatchers && r.Intn(3) == 0 {
+				c.Matchers = Matchers(r, 4) // one or two legacy matchers plus 1-4 new-style ones on the same node
+			}
 		case k == 3 && o.Legacy:
 			n2 := Pick(r, LabelNames)
 			c.MatchRE = map[string]string{n2: Pick(r, Regexes[n2])}
 			if r.Intn(2) == 0 {
 				c.Matchers = Matchers(r, 2)
+			}
+			if o.MixedMatchers && r.Intn(2) == 0 {
+				// legacy and new-style matchers on one node, several of each
+				c.Matchers = Matchers(r, 4)
+				n3 := Pick(r, LabelNames)
+				c.Match = map[string]string{n3: Pick(r, Values[n3])}
 			}
 		default:
 			c.Matchers = Matchers(r, 2)
